@@ -652,9 +652,17 @@ def install(vm):
     add(lambda n: n in ('@statx', '@syscall'), h_enosys)
     def h_getrandom(vm, st, name, argv, ins):
         n = vm.concretize(st, argv[1])
-        vm.store_bytes(st, argv[0], [0x42] * n)       # fixed hash keys: behaviour under other seeds is outside every claim
+        vm.store_bytes(st, argv[0], [vm.opts.get('hash_seed', 0x42) & 0xFF] * n)       # fixed hash keys (a task parameter): behaviour under other seeds is outside every claim
         return n
     add(lambda n: n == '@getrandom', h_getrandom)
+
+    def h_pred(vm, st, name, argv, ins):
+        # the predicate of slice_some: answered by the obligation (one solver variable per edge)
+        f = vm.opts.get('pred')
+        if f is None:
+            raise Inconclusive("verif_pred called outside a slice obligation")
+        return f(vm, st, *argv)
+    add(lambda n: n == '@verif_pred', h_pred)
     add(lambda n: n == '@dlsym', lambda vm, st, name, argv, ins: 0)
     add(lambda n: n in ('@fcntl', '@fcntl64', '@ioctl', '@poll', '@signal', '@sigaction', '@pthread_self'), lambda vm, st, name, argv, ins: 0)
     add(lambda n: n == '@__errno_location', h_errno_location)
